@@ -278,6 +278,49 @@ theorem threshold_client_reconstruct_verifies (n : Nat) (sk : F) (cs : List F) (
   refine ⟨sign sk h, threshold_client_reconstruct n sk cs idOf h pts hmem hnd h0 hk, ?_⟩
   simp [verifyLib, pubKey, sign, hsk, hh]
 
+/-! ## inputs are values; ids as strings -/
+
+/-- the group-key table a party derives depends only on the published polynomials it is GIVEN — not on the party, and
+(the model being functional) the call cannot change them: every party aggregating from the same `mpks` gets the same
+table, and whatever validated against a published polynomial before an aggregation validates after it. -/
+theorem aggregatePublicKeyShares_gmpk_indep (p q : Party F) (mpks : List (F × List F)) :
+    (aggregatePublicKeyShares p mpks).map (·.gmpk) = (aggregatePublicKeyShares q mpks).map (·.gmpk) := by
+  unfold aggregatePublicKeyShares
+  split <;> rfl
+
+omit [Field F] [DecidableEq F] in
+theorem parseDigits_append (b : Nat) (l : List Nat) (d : Nat) : parseDigits b (l ++ [d]) = parseDigits b l * b + d := by
+  simp [parseDigits, List.foldl_append]
+
+omit [Field F] [DecidableEq F] in
+/-- rendering a number in base `b` and parsing it back in the SAME base is the identity. -/
+theorem parse_digitsOf (b : Nat) (hb : 2 ≤ b) : ∀ (fuel n : Nat), n < b ^ fuel → parseDigits b (digitsOf b fuel n) = n := by
+  intro fuel
+  induction fuel with
+  | zero => intro n hn; simp at hn; subst hn; simp [digitsOf, parseDigits]
+  | succ fuel ih =>
+    intro n hn
+    unfold digitsOf
+    by_cases h : n < b
+    · simp [h, parseDigits]
+    · rw [if_neg h, parseDigits_append]
+      have hdiv : n / b < b ^ fuel := by
+        rw [Nat.div_lt_iff_lt_mul (by omega)]
+        rw [Nat.pow_succ] at hn
+        exact hn
+      rw [ih (n / b) hdiv]
+      exact Nat.div_add_mod' n b
+
+omit [Field F] [DecidableEq F] in
+/-- **id_string_round_trip**: `SetID(GetID(share))` keeps the id (both hexadecimal) — for every id. -/
+theorem id_string_round_trip (id : Nat) (h : id < 16 ^ 64) : idRoundTrip id = some id := by
+  simp only [idRoundTrip, h, if_true, parseHex, showHex]
+  rw [parse_digitsOf 16 (by omega) 64 id h]
+
+/-- a decimal rendering read back as hexadecimal is another number from id 10 on: `"10"` is 16 — what a `GetID` in
+decimal with a `SetID` in hexadecimal would do to the tenth share. -/
+example : parseHex (showDec 9) = 9 ∧ parseHex (showDec 10) = 16 ∧ parseHex (showDec 20) = 32 := by decide
+
 /-! ## ShareOrSigns.Validate -/
 
 /-- an entry is honest w.r.t. the sender's polynomial `msk`. -/
